@@ -119,3 +119,72 @@ package kv
 //@   ensures imp(result2, result0.tag == seqKeyTag(gf(c.Cursor, "snap"), gf(c.Cursor, "pos")) && result0.box == seqKeyBox(gf(c.Cursor, "snap"), gf(c.Cursor, "pos")) &&
 //@       result1 != nil && fresh(result1) && iface(*result1).box == seqValBox(gf(c.Cursor, "snap"), gf(c.Cursor, "pos")))
 //@   ensures imp(!result2, result0 == nil && result1 == nil)
+
+// ---------------------------------------------------------------------------
+// Opening (properties C11, C12, C13, C14). lists: LIST requests issued so far.
+//@ ghostvar lists int
+
+// gob decoding of a version object (encoding/gob is external): only the
+// object behind the pointer changes
+//@ func unmarshalGob
+//@   trusted
+//@   requires typeis(thing, *crdt.Root)
+//@   modifies *thing.(*crdt.Root)
+
+//@ func Config.LogFunc
+//@   trusted
+//@   modifies nothing
+
+//@ func getFirstKey
+//@   modifies nothing
+//@   ensures imp(result != nil, fresh(result) && has(m, *result))
+
+// loadRoot: fetch and decode one version object; a missing object keeps its
+// NoSuchKey classification through the wrapping.
+//@ func loadRoot
+//@   requires persist != nil
+//@   modifies nothing
+//@   ensures imp(err == nil, result0 != nil && fresh(result0)) && imp(err != nil, result0 == nil)
+
+// loadRootFromAny: look the version up in each place in turn; (nil, nil, nil)
+// means every place answered NoSuchKey; any other failure is an error.
+//@ func loadRootFromAny
+//@   requires forall j int :: imp(0 <= j && j < len(persist), persist[j] != nil)
+//@   modifies nothing
+//@   ensures imp(err != nil, result0 == nil) && imp(result0 != nil, fresh(result0))
+//@   loop 1 invariant -1 <= rangeindex && rangeindex < len(persist)
+
+//@ func emptyRoot
+//@   modifies nothing
+//@   ensures result.Created != nil && *result.Created == when && len(result.MergeSources) == 0 && result.KVVersion == 1
+
+// listObjects / listRoots: one LIST request per page, nothing else.
+//@ func listObjects
+//@   requires c != nil
+//@   modifies lists
+//@   ensures lists > old(lists) && puts == old(puts) && deletes == old(deletes)
+//@   ensures imp(err != nil, result0 == nil)
+//@   loop 2 invariant lists >= old(lists) && puts == old(puts) && deletes == old(deletes)
+//@   loop 1 invariant -1 <= rangeindex && rangeindex < len(out.Contents) && lists > old(lists) && puts == old(puts) && deletes == old(deletes) && out != nil && out.IsTruncated != nil
+//@   loop 1 invariant forall j int :: imp(0 <= j && j < len(out.Contents), out.Contents[j] != nil && out.Contents[j].Key != nil)
+//@ func listRoots
+//@   requires S3 != nil && rootPersist != nil
+//@   modifies lists
+//@   ensures lists > old(lists) && puts == old(puts) && deletes == old(deletes)
+
+// mergeRoots: fold the listed versions into one tree (random order). With
+// skipUnreadable false (a historic open of named versions) every requested
+// version must end up merged: anything unreadable is an error, never a skip.
+// No PUT/DELETE; only *maxVersion (and fresh objects) change.
+//@ func mergeRoots
+//@   requires maxVersion != nil
+//@   requires forall j int :: imp(0 <= j && j < len(persists), persists[j] != nil)
+//@   modifies *maxVersion
+//@   ensures strict: forall j int :: imp(err == nil && !skipUnreadable && 0 <= j && j < len(roots), has(result1, roots[j]))
+//@   ensures tree: imp(err == nil, result0 != nil && result0.Mast != nil && result0.Created != nil && result1 != nil)
+//@   ensures failed: imp(err != nil, result0 == nil)
+//@   loop 1 modifies contents(mergedRoots), *maxVersion
+//@   loop 1 invariant -1 <= rangeindex && rangeindex < len(roots_cur) && mergedRoots != nil && fresh(mergedRoots) && len(roots_cur) == len(roots) && fresh(roots_cur)
+//@   loop 1 invariant imp(tree != nil, fresh(tree) && tree.Mast != nil)
+//@   loop 1 invariant forall j int :: imp(0 <= j && j < len(persists), persists[j] != nil)
+//@   loop 1 invariant forall j int :: imp(!skipUnreadable && 0 <= j && j <= rangeindex, has(mergedRoots, roots_cur[j]))
